@@ -146,6 +146,12 @@ void run_typed(const Execution &ex) {
             (*me)[(size_t) st.num("i") - 1] = Val<T>::make(v);
         } else if (op == "CopyConstruct") {
             me = new A(*other);
+        } else if (op == "SelfCopyAssign") {
+            A &alias = *me;
+            *me = alias;
+        } else if (op == "SelfMoveAssign") {
+            A &alias = *me;
+            *me = std::move(alias);
         } else if (op == "CopyAssign") {
             *me = *other;
             moved[o] = false;
